@@ -14,6 +14,9 @@ type Lexer struct {
 	atStart bool
 	// prevType is the type of the token returned last.
 	prevType TokenType
+	// memo of looksLikeAccount: input[acctScanStart:acctScanEnd] has been
+	// scanned, acctLastColon is the offset of its last colon (or -1)
+	acctScanStart, acctScanEnd, acctLastColon int
 }
 
 func NewLexer(input string) *Lexer {
@@ -469,7 +472,7 @@ func (l *Lexer) scanText() Token {
 
 	value := strings.TrimSpace(l.input[start:l.pos])
 	end := l.position()
-	if strings.HasPrefix(l.input[start:l.pos], value) {
+	if value != "" && strings.HasPrefix(l.input[start:l.pos], value) {
 		// the token ends with its text, not with the blanks that follow it
 		end = Position{Line: startPos.Line, Column: startPos.Column + utf16Len(value), Offset: start + len(value)}
 	}
@@ -631,12 +634,19 @@ func (l *Lexer) scanSign() Token {
 }
 
 func (l *Lexer) looksLikeAccount() bool {
-	hasColon := false
+	// The scan below runs to the end of the candidate name (two blanks or a
+	// terminator). On a long line of short words every word would rescan the
+	// same stretch; remember the stretch and where its last colon is.
+	if l.pos >= l.acctScanStart && l.pos < l.acctScanEnd {
+		return l.acctLastColon >= l.pos
+	}
 
-	for i := l.pos; i < len(l.input); {
+	lastColon := -1
+	i := l.pos
+	for i < len(l.input) {
 		r, size := utf8.DecodeRuneInString(l.input[i:])
 		if r == ':' {
-			hasColon = true
+			lastColon = i
 			i += size
 		} else if r == ' ' {
 			if i+1 < len(l.input) && l.input[i+1] == ' ' {
@@ -650,7 +660,8 @@ func (l *Lexer) looksLikeAccount() bool {
 		}
 	}
 
-	return hasColon
+	l.acctScanStart, l.acctScanEnd, l.acctLastColon = l.pos, i, lastColon
+	return lastColon >= 0
 }
 
 func (l *Lexer) looksLikeCommodity(value string) bool {
